@@ -295,3 +295,66 @@ def matvalid(eng, k):
     e = eng.as_key(k)
     eng.facts.key(e)
     return SV(T.matvalid(e), "bool")
+
+
+# ------------------------------------------------------------------ sat operands (C07 / C06)
+def _opden(eng, v):
+    """denotation of a sat operand at the ghost assignment: label -> xval, dict/model -> bden"""
+    if isinstance(v, (PObj, DictVal)):
+        return FO.fold(eng, eng.store_of(v), "bden")
+    e = eng.as_label(v)
+    eng.facts.label(e)
+    return T.xval(e)
+
+
+@spec
+def opden(eng, v):
+    return SV(_opden(eng, v), "real")
+
+
+@spec
+def all01(eng, vs):
+    """every operand takes a value in {0,1} at the ghost assignment"""
+    parts = []
+    for v in vs:
+        d = _opden(eng, v)
+        parts.append(z3.Or(d == 0, d == 1))
+    return SV(z3.And(*parts) if parts else z3.BoolVal(True), "bool")
+
+
+@spec
+def andf(eng, vs):
+    r = z3.RealVal(1)
+    for v in vs:
+        r = r * _opden(eng, v)
+    return SV(r, "real")
+
+
+@spec
+def orf(eng, vs):
+    r = z3.RealVal(1)
+    for v in vs:
+        r = r * (1 - _opden(eng, v))
+    return SV(1 - r, "real") if vs else SV(z3.RealVal(1), "real")
+
+
+@spec
+def xorf(eng, vs):
+    """parity of the operands (for values in {0,1}); documented value 1 for no operands"""
+    if not vs:
+        return SV(z3.RealVal(1), "real")
+    r = _opden(eng, vs[0])
+    for v in vs[1:]:
+        d = _opden(eng, v)
+        r = r + d - 2 * r * d
+    return SV(r, "real")
+
+
+@spec
+def opsvalid(eng, vs):
+    """dict/model operands are well formed boolean models or raw dicts; distinct objects"""
+    parts = []
+    for v in vs:
+        if isinstance(v, PObj):
+            parts.append(_b(eng, wf(eng, v)))
+    return SV(z3.And(*parts) if parts else z3.BoolVal(True), "bool")
